@@ -87,6 +87,32 @@ def P(k):
         except BaseException as e:
             LOG.append(("reenter-raised", describe_exc(e)))
         return None
+    if kind == "xthread":
+        # the same re-entrant resume, but issued by a second real thread while this one is parked inside the body
+        # (baton passing: the helper runs to completion before the body goes on, so the schedule is fixed)
+        import threading
+        obj = CURRENT[0]
+        LOG.append(("xthread", n))
+        box = []
+
+        def helper():
+            try:
+                if act[1] == "next":
+                    r = next(obj)
+                elif act[1] == "send":
+                    r = obj.send(1)
+                elif act[1] == "throw":
+                    r = obj.throw(E2(n))
+                else:
+                    r = obj.close()
+                box.append(("xthread-result", norm(r)))
+            except BaseException as e:
+                box.append(("xthread-raised", describe_exc(e)))
+        t = threading.Thread(target=helper)
+        t.start()
+        t.join()
+        LOG.extend(box)
+        return None
     if kind == "ret":
         return act[1]
     return None
